@@ -61,6 +61,7 @@ type mon struct {
 	jobIDs    []string
 	allDenoms []string
 	denomB    string
+	denomAB   string // created by the attacker, administered by B since a hand-over
 	poolTxB   uint64
 	uscB      uint64
 	fresh     int
@@ -166,6 +167,13 @@ func (m *mon) templates() map[string][]template {
 	add("user", UB, &tftypes.MsgChangeAdmin{Denom: m.denomB, NewAdmin: m.UA.Bech, Metadata: world.Meta(UB)}, "hand B's denom to A")
 	add("user", UB, &tftypes.MsgSetDenomMetadata{DenomMetadata: banktypes.Metadata{Description: "d", Base: m.denomB, Display: m.denomB, Name: "n", Symbol: "S",
 		DenomUnits: []*banktypes.DenomUnit{{Denom: m.denomB, Exponent: 0}}}, Metadata: world.Meta(UB)}, "B's denom")
+	if m.denomAB != "" {
+		add("user", UB, world.MsgMint(UB, m.denomAB, sdkmath.NewInt(5)), "token created by A, handed to B")
+		add("user", UB, &tftypes.MsgChangeAdmin{Denom: m.denomAB, NewAdmin: m.UA.Bech, Metadata: world.Meta(UB)}, "token created by A, handed to B")
+		add("user", UB, &tftypes.MsgSetDenomMetadata{DenomMetadata: banktypes.Metadata{Description: "d2", Base: m.denomAB, Display: m.denomAB, Name: "n2", Symbol: "S2",
+			DenomUnits: []*banktypes.DenomUnit{{Denom: m.denomAB, Exponent: 0}}}, Metadata: world.Meta(UB)}, "token created by A, handed to B")
+		add("user", UB, world.MsgMapERC20(UB, m.denomAB, ch, "0x00000000000000000000000000000000000e2cab"), "token created by A, handed to B")
+	}
 	// ---- users: light node
 	add("user", UB, &palomatypes.MsgAddLightNodeClientLicense{Metadata: world.Meta(UB), ClientAddress: m.freshAcct("lic").Bech, Amount: sdk.NewInt64Coin(chain.Denom, 1000), VestingMonths: 12}, "")
 	add("user", UB, &palomatypes.MsgRegisterLightNodeClient{Metadata: world.Meta(UB)}, "")
@@ -358,6 +366,18 @@ func (m *mon) prepare() error {
 		return err
 	}
 	if err := must("map", c.Deliver(UB, world.MsgMapERC20(UB, m.denomB, ch, "0x00000000000000000000000000000000000e2cb0"))); err != nil {
+		return err
+	}
+	// a token CREATED by the attacker and then handed to B: the former creator/admin is just another stranger now
+	if err := must("create denom ab", c.Deliver(m.UA, world.MsgCreateDenom(m.UA, "tkab"))); err != nil {
+		return err
+	}
+	m.denomAB = world.FactoryDenom(m.UA, "tkab")
+	m.allDenoms = append(m.allDenoms, m.denomAB)
+	if err := must("mint ab", c.Deliver(m.UA, world.MsgMint(m.UA, m.denomAB, sdkmath.NewInt(5000)))); err != nil {
+		return err
+	}
+	if err := must("hand over ab", c.Deliver(m.UA, &tftypes.MsgChangeAdmin{Denom: m.denomAB, NewAdmin: UB.Bech, Metadata: world.Meta(m.UA)})); err != nil {
 		return err
 	}
 	// the attackers hold some of B's token (so that "burn B's token from my own balance" is possible at all)
